@@ -106,6 +106,8 @@ structure St where
   fibers : List Nat
   /-- ghost: the waiter list, head first -/
   wl : List Nat
+  /-- ghost: the fiber an internal_wake has unlinked and not yet made READY -/
+  waking : Option Nat
   /-- ghost: a sender / a receiver has blocked at least once -/
   everS : Bool
   everR : Bool
@@ -117,7 +119,7 @@ structure St where
 def init (cap : Nat) : St :=
   { cap := cap, lock := none, counter := 1, handoffBy := none, high := 0, low := 0,
     buf := fun _ => 0, waiters := 0, scr := fun _ => 0, pc := fun _ => .idle,
-    woken := fun _ => false, fibers := [], wl := [], everS := false, everR := false,
+    woken := fun _ => false, fibers := [], wl := [], waking := none, everS := false, everR := false,
     sent := [], recvd := [], calls := fun _ => [] }
 
 def addFiber (l : List Nat) (f : Nat) : List Nat := if l.contains f then l else l ++ [f]
@@ -225,7 +227,9 @@ def step (s : St) : Ev → Option St
   | .wWaiters f w =>
     match s.pc f with
     | .wLinked o => if w = f then some { s with waiters := f, wl := f :: s.wl, pc := upd s.pc f (.wListed o) } else none
-    | .kNext res g x => if w = x then some { s with waiters := x, wl := s.wl.drop 1, pc := upd s.pc f (.kUnl res g) } else none
+    | .kNext res g x =>
+      if w = x then some { s with waiters := x, wl := s.wl.drop 1, waking := some g, pc := upd s.pc f (.kUnl res g) }
+      else none
     | _ => none
   | .wStateWaiting f =>
     match s.pc f with
@@ -259,7 +263,9 @@ def step (s : St) : Ev → Option St
     | _ => none
   | .wStateReady f g =>
     match s.pc f with
-    | .kClr res w => if g = w then some { s with woken := upd s.woken w true, pc := upd s.pc f (.unlock res) } else none
+    | .kClr res w =>
+      if g = w then some { s with woken := upd s.woken w true, waking := none, pc := upd s.pc f (.unlock res) }
+      else none
     | _ => none
 
 def sys (cap : Nat) : Sys St Ev := { init := init cap, step := step }
